@@ -67,6 +67,9 @@ FIXED += [
     ("C03", "bb45f3e", "LIKE / regular expressions on numbers, dates and booleans were false for every entry and so were their negations (`size like '1%'`, `size not like '1%'`) (audit agent)", []),
     ("C10", "c97bb62", "a bracket opened after a function word and never closed was accepted: `lower( from .`, `name, lower(( from .`, `where size > length(`, `name, length( limit x` ended with status 0 and rows (every error in the first argument was discarded) (audit agent; the forms are now enumerated in class v)", []),
     ("C10", "b122ef5", "a dangling NOT (`where is_file not`, `where name not`) was silently dropped: status 0 (audit agent; enumerated in class v)", []),
+    ("C15", "7306c0f", "a text literal that spells a column's display name was replaced by that column's value when the column was selected too: `select name, 'Name'` printed the name twice, `select mode, contains('Mode')` searched for the mode string (audit agents C04/C09; C15 now puts such literals next to columns)", []),
+    ("C09", "7035180", "`into html` wrote a carriage return raw: every HTML/XML parser turns it into a line feed, so the value `c\\rd` decoded as `c\\nd` (audit agent; the check's HTML parser now normalises line ends like a real one)", []),
+    ("C09", "896554b", "`into json` dropped a column that was selected twice (`select name, size, name`; 'A' and 'a' in grouped queries): the object had fewer members than the row has values (audit agent; a fifth of the cases now repeat a column)", []),
     ("C10", "9b6a0a7", "day('2020-0\u0661-01'): the date pattern matched non-ASCII digits and the integer parse of the capture was unwrapped (found by the eval_total fuzz target after 2e7 executions)", ["date-non-ascii-digit"]),
     ("C10", "69a0b27", "`name from './[a' depth 1 rx`: a malformed pattern in a regexp search root panicked (unwrap of Regex::new)", ["regexp-root-malformed"]),
 ]
